@@ -442,6 +442,16 @@ func cmdCheck(args []string) int {
 		}
 	}
 	if update {
+		// never commit a golden list while a function under contract does not generate:
+		// its obligations would silently drop out of the claim
+		for _, r := range results {
+			if r.Err != nil {
+				fmt.Printf("golden list for %s NOT updated: %v\n", id, r.Err)
+				update = false
+			}
+		}
+	}
+	if update {
 		var as []string
 		for a := range curAssumed {
 			as = append(as, a)
